@@ -21,6 +21,7 @@ import (
 	"path"
 	"sort"
 	"strings"
+	"syscall"
 	"testing"
 	"testing/synctest"
 
@@ -253,6 +254,20 @@ func runDisk(c *run.Ctx) {
 		defer back()
 		fs.Cwd = path.Join(W, cd)
 	}
+	// a configuration, not a transient fault: the nested module's sentinel cannot be examined (EACCES on
+	// every Stat). The root search must then stop; climbing on would adopt the outer module's root.
+	unreadable := ""
+	if _, nested := l.Sents[l.Top+"/inner/go.mod"]; nested && !adversarial && t.Bool(1, 4) {
+		unreadable = l.Top + "/inner/go.mod"
+		fs.Before = func(seq int, kind, p string) *simfs.Fault {
+			if kind == "stat" && p == unreadable {
+				c.Fault("stat-eacces")
+				return &simfs.Fault{Err: syscall.EACCES}
+			}
+			return nil
+		}
+		c.Probe("nested-sentinel-unreadable")
+	}
 	c.Logf("layout %v", l.Describe())
 	c.Logf("main %s (cwd +%q)", mainArg, cd)
 
@@ -308,6 +323,10 @@ func runDisk(c *run.Ctx) {
 		} else {
 			c.Probe("adversarial-import-refused")
 		}
+		return
+	}
+	if unreadable != "" {
+		// with an unreadable sentinel only confinement and information flow are judged
 		return
 	}
 	// (iii) consistency
